@@ -48,7 +48,7 @@ def use_stubs():
 def write_trace(path, events):
     with open(path, "w") as f:
         for ev in events:
-            f.write(json.dumps(ev, separators=(",", ":")))
+            f.write(ev if isinstance(ev, str) else json.dumps(ev, separators=(",", ":")))
             f.write("\n")
 
 
